@@ -398,10 +398,57 @@ def rule_f(ctx, out):
         raise AnalysisError(f"only {n} documents evaluated")
 
 
+def rule_g(ctx, out):
+    """The plain-text rendering of a block has every instruction of the block except the `tag` pseudo-items (which the plain format
+    has no spelling for): AsmBlock.to_plain / to_plain_with_byte_number are interpreted on blocks with tags, JUMPDEST, pushes, pseudo
+    pushes and jumps; the rendering must be the items' own renderings, in order.  (JUMPDEST is a real opcode: a rendering that drops it
+    reads back as a shorter block.)"""
+    from ..core.interp import ModuleInterp
+    from ..core.minieval import Unsupported, Raised
+    bcls = ctx.p.cls("sfs_generator.asm_block.AsmBlock")
+    icls = ctx.p.cls(BC)
+    mi = ModuleInterp(ctx, max_steps=100000)
+    Item = mi.fake_class(icls)
+    Blk = mi.fake_class(bcls)
+    make = mi.constructor(icls, lambda: Item())
+    mi.module_env("global_params.constants")["push0_enabled"] = False
+    shapes = [[("tag", "1"), ("JUMPDEST", None), ("PUSH", "80"), ("PUSH", "40"), ("MSTORE", None), ("PUSH [tag]", "2"), ("JUMP", None)],
+              [("JUMPDEST", None), ("PUSH", "1"), ("ADD", None)],
+              [("tag", "7"), ("JUMPDEST", None), ("STOP", None)],
+              [("PUSH", "0"), ("DUP1", None), ("REVERT", None)],
+              [("tag", "3"), ("PUSH", "1"), ("tag", "4"), ("JUMPDEST", None), ("POP", None)]]
+    n = 0
+    for shape in shapes:
+        try:
+            items = [make(-1, -1, -1, d, v) for d, v in shape]
+            blk = Blk(_instructions=items)
+            for meth, each in (("to_plain", "to_plain"), ("to_plain_with_byte_number", "to_plain_with_byte_number")):
+                if meth not in bcls.methods:
+                    continue
+                got = mi.call(bcls.methods[meth], blk)
+                want = " ".join(mi.call(icls.methods[each], it) for it, (d, _) in zip(items, shape) if not (d == "tag" and meth == "to_plain"))
+                n += 1
+                if got == want or (meth != "to_plain" and got.split() == [w for w in want.split()]):
+                    out.ok({"block": " ".join(d for d, _ in shape), "rendering": meth})
+                elif meth == "to_plain":
+                    missing = [w for w in want.split() if w not in got.split()]
+                    out.bad(f"block-rendering-drops-instruction:{(missing or ['?'])[0]}", f"AsmBlock.{meth} renders the block `{' '.join(d for d, _ in shape)}` as `{got}`; "
+                            f"its instructions are `{want}`: the text reads back as a different block", where(bcls.methods[meth]))
+                else:
+                    out.ok({"block": " ".join(d for d, _ in shape), "rendering": meth, "note": "byte-number rendering differs from the items' (informational)"})
+        except Raised as e:
+            out.bad("block-rendering-raises", f"rendering the block {shape} raises {e.what}", where(bcls.methods["to_plain"]))
+        except Unsupported as e:
+            raise AnalysisError(f"AsmBlock.to_plain cannot be evaluated abstractly: {e}")
+    if n < 5:
+        raise AnalysisError(f"only {n} block renderings evaluated")
+
+
 RULES = [
     ("C15.e", "plain-text constants keep their value in every spelling", 20, rule_e),
     ("C15.d", "per-section containers of the serialiser are fresh", 2, rule_d),
     ("C15.a", "key agreement between parser and serialiser at every level", 25, rule_a),
+    ("C15.g", "the plain rendering of a block keeps every instruction but the tags", 5, rule_g),
     ("C15.f", "contract assembly round-trips whatever optional parts it has (by evaluation)", 32, rule_f),
     ("C15.b", "item name/value change only through the PUSH0 spelling", 5, rule_b),
     ("C15.c", "PUSHLIB renumbering round-trips through real_value", 3, rule_c),
